@@ -46,11 +46,21 @@ def shards(tier):
 def strategy_(draw, shard):
     kind = shard["kind"]
     if kind == "emp":
-        pool = draw(st.lists(st.one_of(st.integers(0, 6).map(float), st.floats(0, 30).map(lambda v: round(v, 2))),
+        # sample values of either sign (the class is a generic empirical distribution), many ties
+        pool = draw(st.lists(st.one_of(st.integers(0, 6).map(float), st.integers(-6, 6).map(float),
+                                       st.floats(0, 30).map(lambda v: round(v, 2)),
+                                       st.floats(-30, 30).map(lambda v: round(v, 2)),
+                                       st.floats(1e-9, 1e6).map(lambda v: float(f"{v:.5g}"))),
                              min_size=1, max_size=6))
         samples = draw(st.lists(st.sampled_from(pool), min_size=1, max_size=40))
-        vals = draw(st.lists(st.one_of(st.sampled_from(samples), st.floats(-1, 31).map(lambda v: round(v, 2)),
-                                       st.sampled_from([-1.0, 1e9, 0.0])), min_size=2, max_size=6))
+        # observed values: exact ties, float neighbours and near misses of a sample, points between and outside
+        near = st.builds(lambda x, k: [math.nextafter(x, math.inf), math.nextafter(x, -math.inf), x * (1 + 3e-8),
+                                       x * (1 - 3e-8), x * (1 + 1e-12), x * (1 - 1e-12), x + 1e-9, x - 1e-9][k],
+                         st.sampled_from(samples), st.integers(0, 7)).map(
+            # no subnormal observed values: jax and tensorflow flush them to zero (not the subject here)
+            lambda v: v if (v == 0 or abs(v) > 1e-300) else math.copysign(1e-300, v))
+        vals = draw(st.lists(st.one_of(st.sampled_from(samples), near, st.floats(-31, 31).map(lambda v: round(v, 2)),
+                                       st.sampled_from([-1.0, 1e9, 0.0, -1e9])), min_size=2, max_size=8))
         return {"kind": kind, "samples": samples, "values": vals, "backend": shard["backend"],
                 "shape2d": draw(st.booleans())}
     if kind == "sample":
@@ -122,7 +132,8 @@ def run_emp(case, ctx):
             p = float(backends.tonp(p))
             want = sum(1 for x in s if x >= v) / len(s)
             if p != want:
-                where = "tie" if v in s else "between_or_outside"
+                where = ("tie" if v in s else "near_miss" if any(abs(v - x) <= 1e-6 * max(abs(x), 1e-3) for x in s)
+                         else "between_or_outside") + ("/negative_value" if v < 0 else "")
                 ctx.fail(f"C14/pvalue_ne_tail_fraction/{case['backend']}/{where}", value=v, got=p, want=want)
             if not (0.0 <= p <= 1.0):
                 ctx.fail(f"C14/pvalue_out_of_range/{case['backend']}", got=p)
